@@ -309,6 +309,11 @@ theorem step_store {s s' : State} {op : Op} {ob : Obs} (h : step s op = some (s'
     split at h
     · simp at h; obtain ⟨h1, _⟩ := h; subst h1; exact ⟨rfl, Or.inl rfl⟩
     · simp at h
+  | conc t r =>
+    simp only [step] at h
+    split at h
+    · simp at h; obtain ⟨h1, _⟩ := h; subst h1; exact ⟨rfl, Or.inl rfl⟩
+    · simp at h
 
 /-- one operation — of any kind, by any thread — leaves every existing context exactly as it was -/
 theorem older_unaffected_step {s s' : State} {op : Op} {ob : Obs} (h : step s op = some (s', ob)) :
@@ -590,6 +595,190 @@ theorem scope_nested_release_reactivates {s s1 s2 s3 : State} {t i1 i2 j1 j2 : N
 
 example : ∃ s1 j id, step (State.init 1) (.scope 0 2) = some (s1, .scope j id) := ⟨_, _, _, rfl⟩
 
+/-! ### Scope release after an arbitrary program -/
+
+theorem killAt_fst (l : List (CtxId × Bool)) (m j : Nat) (c : CtxId) (b : Bool) (h : l[j]? = some (c, b)) :
+    ∃ b', (killAt l m)[j]? = some (c, b') := by
+  unfold killAt
+  by_cases e : m = j
+  · subst e
+    have hlt : m < l.length := (List.getElem?_eq_some_iff.mp h).1
+    refine ⟨false, ?_⟩
+    rw [List.getElem?_set_self hlt]
+    simp [List.getD_eq_getElem?_getD, h]
+  · exact ⟨b, by rw [List.getElem?_set_ne e]; exact h⟩
+
+/-- a scope keeps the context it attached, whatever happens (it can only be closed) -/
+theorem step_scopes_fst {s s' : State} {op : Op} {ob : Obs} (h : step s op = some (s', ob)) (j : Nat) (c : CtxId) (b : Bool)
+    (hj : s.scopes[j]? = some (c, b)) : ∃ b', s'.scopes[j]? = some (c, b') := by
+  have keep : s'.scopes = s.scopes → ∃ b', s'.scopes[j]? = some (c, b') := fun e => ⟨b, by rw [e]; exact hj⟩
+  cases op with
+  | set t p k v =>
+    simp only [step] at h
+    split at h
+    · unfold State.withNew at h
+      cases hr : setValue s.store p k v with
+      | none => simp [hr] at h
+      | some x => simp [hr] at h; obtain ⟨h1, _⟩ := h; subst h1; exact keep rfl
+    · simp at h
+  | setm t p kvs =>
+    simp only [step] at h
+    split at h
+    · unfold State.withNew at h
+      cases hr : setValues s.store p kvs with
+      | none => simp [hr] at h
+      | some x => simp [hr] at h; obtain ⟨h1, _⟩ := h; subst h1; exact keep rfl
+    · simp at h
+  | mk t kvs =>
+    simp only [step] at h
+    split at h
+    · unfold State.withNew at h
+      cases hr : setValues s.store 0 kvs with
+      | none => simp [hr] at h
+      | some x => simp [hr] at h; obtain ⟨h1, _⟩ := h; subst h1; exact keep rfl
+    · simp at h
+  | mk1 t k v =>
+    simp only [step] at h
+    split at h
+    · unfold State.withNew at h
+      cases hr : setValue s.store 0 k v with
+      | none => simp [hr] at h
+      | some x => simp [hr] at h; obtain ⟨h1, _⟩ := h; subst h1; exact keep rfl
+    · simp at h
+  | rset t k v p =>
+    simp only [step] at h
+    split at h
+    · unfold State.withNew at h
+      cases hr : setValue s.store (p.getD (top (s.stacks t))) k v with
+      | none => simp [hr] at h
+      | some x => simp [hr] at h; obtain ⟨h1, _⟩ := h; subst h1; exact keep rfl
+    · simp at h
+  | get t p k =>
+    simp only [step] at h
+    split at h
+    · cases hc : s.store.chain? p with
+      | none => simp [hc] at h
+      | some c => simp [hc] at h; obtain ⟨h1, _⟩ := h; subst h1; exact keep rfl
+    · simp at h
+  | rget t k p =>
+    simp only [step] at h
+    split at h
+    · cases hc : s.store.chain? (p.getD (top (s.stacks t))) with
+      | none => simp [hc] at h
+      | some c => simp [hc] at h; obtain ⟨h1, _⟩ := h; subst h1; exact keep rfl
+    · simp at h
+  | attach t p =>
+    simp only [step] at h
+    split at h
+    · simp at h; obtain ⟨h1, _⟩ := h; subst h1; exact keep rfl
+    · simp at h
+  | detach t m =>
+    simp only [step] at h
+    split at h
+    · split at h
+      · simp at h; obtain ⟨h1, _⟩ := h; subst h1; exact keep rfl
+      · simp at h
+    · simp at h
+  | drop t m =>
+    simp only [step] at h
+    split at h
+    · split at h
+      · simp at h; obtain ⟨h1, _⟩ := h; subst h1; exact keep rfl
+      · simp at h
+    · simp at h
+  | cur t =>
+    simp only [step] at h
+    split at h
+    · simp at h; obtain ⟨h1, _⟩ := h; subst h1; exact keep rfl
+    · simp at h
+  | span t =>
+    simp only [step] at h
+    split at h
+    · cases hc : s.store.chain? (top (s.stacks t)) with
+      | none => simp [hc] at h
+      | some c => simp [hc] at h; obtain ⟨h1, _⟩ := h; subst h1; exact keep rfl
+    · simp at h
+  | scope t i =>
+    simp only [step] at h
+    split at h
+    · cases hc : setValue s.store (top (s.stacks t)) Gen.ctxSpanKey (.span i) with
+      | none => simp [hc] at h
+      | some x =>
+        obtain ⟨st, id⟩ := x
+        simp [hc] at h
+        obtain ⟨h1, _⟩ := h
+        subst h1
+        have hlt : j < s.scopes.length := (List.getElem?_eq_some_iff.mp hj).1
+        exact ⟨b, by simp only; rw [List.getElem?_append_left hlt]; exact hj⟩
+    · simp at h
+  | close t j' =>
+    simp only [step] at h
+    split at h
+    · split at h
+      · simp at h; obtain ⟨h1, _⟩ := h; subst h1
+        exact killAt_fst s.scopes j' j c b hj
+      · simp at h
+    · simp at h
+  | dump t =>
+    simp only [step] at h
+    split at h
+    · simp at h; obtain ⟨h1, _⟩ := h; subst h1; exact keep rfl
+    · simp at h
+  | conc t r =>
+    simp only [step] at h
+    split at h
+    · simp at h; obtain ⟨h1, _⟩ := h; subst h1; exact keep rfl
+    · simp at h
+
+theorem run_scopes_fst : ∀ (ops : List Op) (s s' : State) (obs : List Obs), run s ops = some (s', obs) →
+    ∀ (j : Nat) (c : CtxId) (b : Bool), s.scopes[j]? = some (c, b) → ∃ b', s'.scopes[j]? = some (c, b')
+  | [], s, s', obs, h, j, c, b, hj => by
+    simp [run] at h; obtain ⟨h1, _⟩ := h; subst h1; exact ⟨b, hj⟩
+  | o :: os, s, s', obs, h, j, c, b, hj => by
+    obtain ⟨s1, ob, obs', h1, h2, _⟩ := run_cons h
+    obtain ⟨b1, hb1⟩ := step_scopes_fst h1 j c b hj
+    exact run_scopes_fst os s1 s' obs' h2 j c b1 hb1
+
+/-- **releasing a Scope re-activates the previously active span — after any program**: open a scope, let the threads
+    run *any* operations (`ops`); if the scope's attachment is still on its thread's stack (`above ++ id :: …`, i.e. no
+    detach reached below it), closing the scope — also out of order, with other attachments above it — restores the
+    stack from before the scope was opened and `GetCurrentSpan()` answers what it answered then -/
+theorem scope_release_after_program {s s1 s2 s3 : State} {t i j : Nat} {id : CtxId} {ops : List Op} {obs : List Obs}
+    {ob : Obs} {above : Stack}
+    (hopen : step s (.scope t i) = some (s1, .scope j id)) (hrun : run s1 ops = some (s2, obs))
+    (hshape : s2.stacks t = above ++ id :: s.stacks t) (habove : id ∉ above)
+    (hclose : step s2 (.close t j) = some (s3, ob)) :
+    s3.stacks t = s.stacks t ∧ currentSpan s3 t = currentSpan s t := by
+  obtain ⟨ht, hv, hs, hsc, hj, hn⟩ := scope_step hopen
+  have hj1 : s1.scopes[j]? = some (id, true) := by simp [hsc, hj]
+  obtain ⟨b', hj2⟩ := run_scopes_fst ops s1 s2 obs hrun j id true hj1
+  simp only [step] at hclose
+  split at hclose
+  · rw [hj2] at hclose
+    cases b' with
+    | false => simp at hclose
+    | true =>
+      simp at hclose
+      obtain ⟨h3, _⟩ := hclose
+      have hd : detach (s2.stacks t) id = (s.stacks t, true) := by
+        rw [hshape]; exact detach_out_of_order_unwinds above (s.stacks t) id habove
+      have hst : s3.stacks t = s.stacks t := by rw [← h3]; simp [setStack, hd]
+      refine ⟨hst, ?_⟩
+      have hstore : s3.store = s2.store := by rw [← h3]
+      obtain ⟨cp, hp, _, _⟩ := setValue_some hv
+      have hlt : top (s.stacks t) < s.store.size := by
+        simp only [Store.chain?, Store.size] at *
+        exact (List.getElem?_eq_some_iff.mp hp).1
+      have h01 := (older_unaffected_step hopen).2 _ hlt
+      have h12 := (older_unaffected ops s1 s2 obs hrun).2 (top (s.stacks t))
+        (Nat.lt_of_lt_of_le hlt (older_unaffected_step hopen).1)
+      simp only [currentSpan, hst, hstore, h12, h01]
+  · simp at hclose
+
+example : ∃ s1 s2 s3 obs ob, step (State.init 1) (.scope 0 2) = some (s1, .scope 0 1) ∧
+    run s1 [.set 0 0 [1] (.i64 1), .attach 0 2, .scope 0 3] = some (s2, obs) ∧ s2.stacks 0 = [3, 2] ++ 1 :: [] ∧
+    step s2 (.close 0 0) = some (s3, ob) ∧ s3.stacks 0 = [] := ⟨_, _, _, _, _, rfl, rfl, rfl, rfl, rfl⟩
+
 /-! ## Thread isolation -/
 
 theorem withNew_stacks {s s' : State} {r : Option (Store × CtxId)} {ob : Obs} (h : s.withNew r = some (s', ob)) :
@@ -696,6 +885,11 @@ theorem thread_isolation_step {s s' : State} {op : Op} {ob : Obs} (h : step s op
       · simp at h
     · simp at h
   | dump t =>
+    simp only [step] at h
+    split at h
+    · simp at h; obtain ⟨h1, _⟩ := h; subst h1; rfl
+    · simp at h
+  | conc t r =>
     simp only [step] at h
     split at h
     · simp at h; obtain ⟨h1, _⟩ := h; subst h1; rfl
